@@ -603,7 +603,25 @@ func TestUseCaseRegistry(t *testing.T) {
 			}
 		}()
 
+		addEntity := func(t *rapid.T) {
+			var dead []int
+			for i, a := range m.alive {
+				if !a {
+					dead = append(dead, i)
+				}
+			}
+			if len(dead) == 0 {
+				t.Skip("all entities exist")
+			}
+			m.step(op{Kind: opAddEntity, Ent: rapid.SampledFrom(dead).Draw(t, "entity")})
+		}
 		add := func(t *rapid.T) {
+			if len(m.aliveSlots()) == 0 {
+				// every entity was removed: all other actions skip, so bring one back here
+				// (keeps the chance of not finding a valid action negligible)
+				addEntity(t)
+				return
+			}
 			o := op{Kind: opAdd, Ent: m.drawAlive(t)}
 			genTriple(t, &o)
 			genValues(t, &o)
@@ -658,18 +676,7 @@ func TestUseCaseRegistry(t *testing.T) {
 			"RemoveEntity": func(t *rapid.T) {
 				m.step(op{Kind: opRemoveEntity, Ent: m.drawAlive(t)})
 			},
-			"AddEntity": func(t *rapid.T) {
-				var dead []int
-				for i, a := range m.alive {
-					if !a {
-						dead = append(dead, i)
-					}
-				}
-				if len(dead) == 0 {
-					t.Skip("all entities exist")
-				}
-				m.step(op{Kind: opAddEntity, Ent: rapid.SampledFrom(dead).Draw(t, "entity")})
-			},
+			"AddEntity": addEntity,
 		})
 	}))
 }
